@@ -53,7 +53,18 @@ def main():
     for mac, ty, t in MACROS:
         seen = set()
         extra = ['', 'a', 'http://a/b', 'http://a/b c', '#f', '//h', 'foo:bar', 'https://例え.jp/café?q=é#ü', 'http://a/\\', 'a"b', 's:/\u00a0', 's:\ue000', 's:?\ue000', 'http://[::1]/', 'http://[::01.2.3.4]/', 'x:%', 'x:%zz', 'x:%41']
-        cand = [b for b in c01.sample_strings(dfas[t], random.Random(rnd.random()), n * 3)] + [x.encode() for x in extra]
+        extra += ['http://example.org/\u0434', 'http://a/\u672c', 'http://\u0142\u00f3d\u017a.example/', '/\u0434\u0430']   # code points whose low byte is a legal ASCII character
+        base = [b for b in c01.sample_strings(dfas[t], random.Random(rnd.random()), n * 3)]
+        # the same class in general: one character of an accepted ASCII literal moved up by a multiple of 256 (same low byte)
+        r2 = random.Random(rnd.random()); wide = []
+        for b in base[:40]:
+            try: s0 = b.decode('ascii')
+            except UnicodeDecodeError: continue
+            if not s0: continue
+            i = r2.randrange(len(s0)); c2 = chr(ord(s0[i]) + 256 * r2.choice([1, 4, 0x67, 0x100]))
+            if not (0xD800 <= ord(c2) <= 0xDFFF): wide.append((s0[:i] + c2 + s0[i + 1:]).encode())
+        extra_n = len(extra) + 12
+        cand = [x.encode() for x in extra] + wide[:12] + base
         for b in cand:
             try:
                 s = b.decode('utf-8')
@@ -64,7 +75,7 @@ def main():
             seen.add(s)
             tk = c01.tokens_of(dfas[t], b)
             lits.append((mac, ty, t, s, bool(tk is not None and c01.dfa_run(dfas[t], tk))))
-            if len(seen) >= n + len(extra):
+            if len(seen) >= n + extra_n:
                 break
     tmp = tempfile.mkdtemp(prefix='iref-verif-c17-')
     nviol = 0; classes = set()
